@@ -61,7 +61,7 @@ typedef struct pv_cur_t {
     volatile size_t in_len;
     const char* volatile note;      /* static string set by drivers */
 } pv_cur_t;
-extern pv_cur_t pv_cur;
+extern __thread pv_cur_t pv_cur;      /* per thread: the crash handler runs on the faulting thread */
 
 int pv_main(int argc, char** argv, const char* prop, const pv_section* secs, int nsecs,
             void (*init)(void), void (*fini)(void));
